@@ -965,6 +965,8 @@ class _Simu(_IObserver, _params.Updatable, ABC):
             mesh = Load_Mesh(Folder.Join(self.folder, mesh))
 
         self.__mesh = mesh
+        # a mesh read back from disk is a new object: the simulation must hear about its modifications too
+        mesh._Add_observer(self)
 
         # switching to another mesh in the history changes the connectivity
         clear_cached_computed_values(self)
